@@ -24,6 +24,21 @@ func isBoolPhi(p *ssa.Phi) bool {
 // psReach explores (block, env) states from the given start (entering start block with env empty, phis of the start block unknown)
 // and returns the set of blocks reachable. cut removes edges. visit (optional) is called per state.
 func psReach(fn *ssa.Function, starts []*ssa.BasicBlock, cut func(from *ssa.BasicBlock, succ int) bool) map[*ssa.BasicBlock]bool {
+	return psReachVal(fn, starts, cut, nil)
+}
+
+// psReachVal additionally prunes edges whose facts contradict the integer valuation val (E2).
+func psReachVal(fn *ssa.Function, starts []*ssa.BasicBlock, cut func(from *ssa.BasicBlock, succ int) bool, val map[string]int64) map[*ssa.BasicBlock]bool {
+	infeasible := map[*ssa.BasicBlock][2]bool{}
+	if val != nil {
+		for _, ef := range edgeFacts(fn) {
+			if known, truth := evalFact(ef.Fact, val); known && !truth {
+				v := infeasible[ef.From]
+				v[ef.Succ] = true
+				infeasible[ef.From] = v
+			}
+		}
+	}
 	// index phis
 	phiIdx := map[*ssa.Phi]int{}
 	var phis []*ssa.Phi
@@ -54,7 +69,7 @@ func psReach(fn *ssa.Function, starts []*ssa.BasicBlock, cut func(from *ssa.Basi
 		}
 		return sb.String()
 	}
-	evalV := func(v ssa.Value, e env) (val, known bool) {
+	evalV := func(v ssa.Value, e env) (res, known bool) {
 		switch x := v.(type) {
 		case *ssa.Const:
 			if x.Value != nil && x.Value.Kind() == constant.Bool {
@@ -62,13 +77,21 @@ func psReach(fn *ssa.Function, starts []*ssa.BasicBlock, cut func(from *ssa.Basi
 			}
 		case *ssa.Phi:
 			if i, ok := phiIdx[x]; ok {
-				val, known = e[i]
+				res, known = e[i]
 				return
 			}
 		case *ssa.UnOp:
 			if x.Op.String() == "!" {
 				v, k := evalVHelper(x.X, e, phiIdx)
 				return !v, k
+			}
+		case *ssa.BinOp:
+			if val != nil {
+				if tf, _ := condFacts(x); len(tf) == 1 {
+					if known, truth := evalFact(tf[0], val); known {
+						return truth, true
+					}
+				}
 			}
 		}
 		return false, false
@@ -99,6 +122,9 @@ func psReach(fn *ssa.Function, starts []*ssa.BasicBlock, cut func(from *ssa.Basi
 		}
 		for i, s := range it.b.Succs {
 			if cut != nil && cut(it.b, i) {
+				continue
+			}
+			if i < 2 && infeasible[it.b][i] {
 				continue
 			}
 			if iff != nil && i < 2 {
